@@ -14,7 +14,7 @@ ListM == {"append", "extend", "insert", "pop", "remove", "sort", "reverse", "ind
 DictM == {"copy", "get", "items", "keys", "pop", "values", "update", "setdefault", "clear"}
 NumM == {"bit_length", "is_integer", "as_integer_ratio"}
 Matrix == [k : {"construct"}, s : Stmts, e : Exprs, c : Ctxs]
-Calls == [k : {"builtin"}, s : Funcs, e : {"literal", "variable", "nested"}, c : {"module", "function"}]
+Calls == [k : {"builtin"}, s : Funcs, e : {"literal", "variable", "nested", "used"}, c : {"module", "function"}]
 Methods == [k : {"method"}, s : StrM \cup ListM \cup DictM \cup NumM, e : {"literal", "variable"}, c : {"module", "function"}]
 Exotic == [k : {"exotic"}, s : {"match", "async", "walrus", "decorator", "global", "nonlocal", "starassign", "typealias", "classbody",
                                  "generator", "annassign", "delete", "assert", "raise", "trywithfinally", "chained", "nestedfunc",
